@@ -110,7 +110,7 @@ Proof.
   - destruct (flush_inv s m I) as [I' _]. destruct (handle (s_titles s) a) as [[[tt c] r]|e]; exact I'.
   - destruct l as [|a0 l0]; [exact I|].
     destruct (flush_inv s m I) as [I' _]. destruct (handle_all (s_titles s) (a0 :: l0)); exact I'.
-  - destruct (match t with TIdx i => Ok i | TName n => title_index (s_titles s) n end) as [ti|e]; [|exact I].
+  - destruct (sheet_index (s_titles s) t) as [ti|e]; [|exact I].
     destruct (py_index (s_sizes s) ti) as [[lr lc]|e]; [|exact I].
     destruct (sheet_uids ti lr lc); [exact I|]. destruct (flush_inv s m I) as [I' _]. exact I'.
 Qed.
@@ -122,7 +122,7 @@ Proof.
   - destruct (flush_inv s m I) as [_ A]. destruct (handle (s_titles s) a) as [[[ti c] r]|e]; cbn; [exact A|exact Logic.I].
   - destruct l as [|a0 l0]; [exact Logic.I|].
     destruct (flush_inv s m I) as [_ A]. destruct (handle_all (s_titles s) (a0 :: l0)) as [[|u us]|e]; cbn; try exact Logic.I. exact A.
-  - destruct (match t with TIdx i => Ok i | TName n => title_index (s_titles s) n end) as [ti|e]; [|exact Logic.I].
+  - destruct (sheet_index (s_titles s) t) as [ti|e]; [|exact Logic.I].
     destruct (py_index (s_sizes s) ti) as [[lr lc]|e]; [|exact Logic.I].
     destruct (sheet_uids ti lr lc) as [|u us]; [exact Logic.I|]. destruct (flush_inv s m I) as [_ A]. cbn. exact A.
 Qed.
@@ -159,7 +159,7 @@ Proof.
   - destruct (handle (s_titles s) a) as [[[ti c] r]|e]; cbn [fst]; destruct (flush_keeps s) as [A [B C]]; auto.
   - destruct l as [|a0 l0]; [cbn; auto|].
     destruct (handle_all (s_titles s) (a0 :: l0)); cbn [fst]; destruct (flush_keeps s) as [A [B C]]; auto.
-  - destruct (match t with TIdx i => Ok i | TName n => title_index (s_titles s) n end) as [ti|e]; [|cbn; auto].
+  - destruct (sheet_index (s_titles s) t) as [ti|e]; [|cbn; auto].
     destruct (py_index (s_sizes s) ti) as [[lr lc]|e]; [|cbn; auto].
     destruct (sheet_uids ti lr lc); cbn [fst]; [auto|]. destruct (flush_keeps s) as [A [B C]]; auto.
 Qed.
